@@ -684,6 +684,15 @@ class Program:
                 out.append(p)
         elif p:
             out.append(p)
+        # formatting machinery: `{}` / `{:?}` of a crate-local type runs that type's Display / Debug implementation
+        if p and "fmt::rt::Argument" in p and f.get("substs"):
+            tr = {"new_display": "core::fmt::Display", "new_debug": "core::fmt::Debug", "new_lower_hex": "core::fmt::LowerHex",
+                  "new_upper_hex": "core::fmt::UpperHex"}.get(p.split("::")[-1])
+            ty = f["substs"][0].lstrip("&").replace("mut ", "").strip()
+            if tr:
+                cand = "<%s as %s>::fmt" % (ty, tr)
+                if cand in self.fns:
+                    out.append(cand)
         return list(dict.fromkeys(out))
 
     def callees(self, fn, with_closures=True):
